@@ -51,7 +51,8 @@ type l2in struct {
 	regOn      []int
 	createdAt  []int // number of closers started when the scope was created
 	sequential bool
-	strict     bool // no misuse: DoneTask only for accepted tasks
+	failing    map[int]bool // listener ids that return an error
+	strict     bool         // no misuse: DoneTask only for accepted tasks
 }
 type closerView struct {
 	scope, status, errAfter int
@@ -142,6 +143,16 @@ func l2Log(in l2in, fail func(oracle, what string)) {
 			}
 		}
 	}
+	// the first failing listener ends its Trigger: no later listener call of the same close event
+	// fired by the same scope follows it
+	for i, e := range in.log {
+		if in.failing[e.Lid] && isCloseEv(e.Ev) && i+1 < len(in.log) {
+			n := in.log[i+1]
+			if n.Ev == e.Ev && n.By == e.By && in.sequential {
+				fail("first_error_stops_trigger", fmt.Sprintf("listener %d failed on event %d fired by scope %d, yet listener %d was still called", e.Lid, e.Ev, e.By, n.Lid))
+			}
+		}
+	}
 	for _, c := range in.closers {
 		if !c.first {
 			if c.status != 4 {
@@ -172,7 +183,11 @@ func l2Seq(o *Out, r seqResult, strict bool) {
 		createdAt: w.createdAt, sequential: true, strict: strict}
 	// probes: the first 11 listeners registered on each root by the generator (never failing)
 	seen := map[int]int{}
+	in.failing = map[int]bool{}
 	for _, p := range r.Hist {
+		if p.K == "on" && p.Fail >= 0 {
+			in.failing[p.Lid] = true
+		}
 		if p.K == "on" && w.scopePar[p.S] < 0 && p.Fail < 0 && seen[p.S] < 11 && p.Ev == seen[p.S] {
 			in.probeRoot[p.Lid] = p.S
 			seen[p.S]++
@@ -405,6 +420,7 @@ func runC11(o *Out, rng *RNG, tier string, replay string) {
 	if thorough {
 		nSeq = 30000
 	}
+	hangs := 0
 	for i := 0; i < nSeq; i++ {
 		misuse := rng.Chance(20)
 		r := runSeq(genNext(rng, genCfg{listeners: true, misuse: misuse, maxOps: 5 + rng.Intn(26), drain: rng.Chance(65)}, o), 600)
@@ -440,6 +456,10 @@ func runC11(o *Out, rng *RNG, tier string, replay string) {
 		}
 		l2Seq(o, r, !misuse)
 		if r.Hang {
+			hangs++
+			if hangs >= 3 {
+				break // already a violation; every further hang costs seconds
+			}
 			continue
 		}
 		o.AddCase(fmt.Sprintf("CSeq11 %s %s %s %s", r.coqHist(), r.coqObs(), r.coqErrs(), r.coqLog()), r.desc(), "seq:"+r.key(), returned > 0)
